@@ -64,6 +64,13 @@ type Animal struct {
 	Cat *int64
 }
 
+// SKMap is an ordered map whose keys are structs (stringjoin representation).
+type SKey struct{ A, B string }
+type SKMap struct {
+	Keys   []SKey
+	Values map[SKey]int64
+}
+
 // InferMe / InferToo are bound with an inferred (nil) schema.
 type InferMe struct {
 	A string
@@ -97,6 +104,8 @@ type Mood enum {
 	| Happy ("happy")
 	| Sad ("sad")
 }
+type SKey struct { A String  B String } representation stringjoin { join ":" }
+type SKMap {SKey:Int}
 `
 
 // world is everything the tasks share.
@@ -118,6 +127,8 @@ type world struct {
 	encP       []byte // dag-json encoding of the bound struct's representation
 	profile    int
 	byt        datamodel.Node
+	sbytCopy   datamodel.Node
+	skMap      schema.TypedNode
 	subsetNode datamodel.Node
 	sbytBad    datamodel.Node
 	vocab      []schema.TypedNode
@@ -277,9 +288,17 @@ func buildWorld(t *sim.Tape) *world {
 			})
 		}
 	}()
+	w.skMap = bindnode.Wrap(&SKMap{Keys: []SKey{{"a", "b"}, {"c", "d"}, {"e", "f"}}, Values: map[SKey]int64{{"a", "b"}: 11, {"c", "d"}: 35, {"e", "f"}: -2}}, w.ts.TypeByName("SKMap")).(schema.TypedNode)
 	w.sbytBad = basicnode.NewBytesFromReader(&noSeekEnd{r: bytes.NewReader([]byte("a stream that can be read and rewound but not measured"))})
 	w.byt = basicnode.NewBytes([]byte("shared plain bytes node, long enough for subsets"))
 	w.sbyt = basicnode.NewBytesFromReader(bytes.NewReader([]byte("shared stream-backed bytes node: every reader sees all of it, from the start")))
+	func() {
+		defer func() { recover() }()
+		nb := basicnode.Prototype.Bytes.NewBuilder()
+		if err := nb.AssignNode(w.sbyt); err == nil {
+			w.sbytCopy = nb.Build()
+		}
+	}()
 	if w.profile == 0 {
 		w.cfg.Ctx = ctxBackground
 		w.cfg.LinkTargetNodePrototypeChooser = func(datamodel.Link, linking.LinkContext) (datamodel.NodePrototype, error) {
@@ -300,11 +319,11 @@ func avHash(n datamodel.Node) string {
 	return fmt.Sprintf("%x", v.Hash())
 }
 
-const nOps = 43
+const nOps = 45
 
 var opNames = []string{"read-basicnode", "read-bindnode-type", "read-bindnode-repr", "deepequal", "copy", "encode-dagcbor", "encode-dagjson", "encode-bindnode-repr",
 	"computelink", "load", "loadraw", "walkadv", "walkmatching", "get-path", "build-from-shared-prototype", "wrap-with-shared-type", "wrap-inferred", "registry-lookup",
-	"print", "read-gendemo", "build-gendemo", "compile-selector", "typesystem-read", "prototype-inferred", "encode-to-failing-writer", "encode-after-failed-encode", "decode-dagcbor", "decode-dagjson-into-shared-prototype", "focused-transform-of-shared-node", "walk-transform-of-shared-node", "loadplusraw", "fill", "walk-stream-bytes-subset", "read-stream-backed-bytes", "read-vocabulary-node", "walk-with-seeded-selector", "subset-of-stream-that-cannot-seek-to-its-end", "load-raw-codec-block-and-read-it-later", "read-shared-subset-match-node", "new-default-linksystem", "select-links", "load-schema-dsl", "fluent-qp-build"}
+	"print", "read-gendemo", "build-gendemo", "compile-selector", "typesystem-read", "prototype-inferred", "encode-to-failing-writer", "encode-after-failed-encode", "decode-dagcbor", "decode-dagjson-into-shared-prototype", "focused-transform-of-shared-node", "walk-transform-of-shared-node", "loadplusraw", "fill", "walk-stream-bytes-subset", "read-stream-backed-bytes", "read-vocabulary-node", "walk-with-seeded-selector", "subset-of-stream-that-cannot-seek-to-its-end", "load-raw-codec-block-and-read-it-later", "read-shared-subset-match-node", "new-default-linksystem", "select-links", "load-schema-dsl", "fluent-qp-build", "read-copy-of-stream-backed-bytes", "lookup-in-struct-keyed-map"}
 
 // doOp performs one read-only operation on the shared world and returns a digest of its result.
 func (w *world) doOp(op, arg int) string {
@@ -640,6 +659,31 @@ func (w *world) doOp(op, arg int) string {
 			return "ERR:" + err.Error()
 		}
 		return avHash(n)
+	case 43:
+		// the copy a bytes builder made of the shared stream-backed node (same underlying stream)
+		if w.sbytCopy == nil {
+			return "none"
+		}
+		b, err := w.sbytCopy.AsBytes()
+		return fmt.Sprintf("%x %v", sim.HashString(string(b)), err)
+	case 44:
+		// keyed lookups in a shared reflection-bound map whose keys are structs (stringjoin representation)
+		keys := []string{"a:b", "c:d", "e:f", "nope:nope"}
+		k := keys[arg%len(keys)]
+		out := k
+		v, err := w.skMap.LookupByString(k)
+		if err != nil {
+			out += " ERR"
+		} else {
+			out += " " + avHash(v)
+		}
+		v, err = w.skMap.Representation().LookupByString(keys[(arg+1)%len(keys)])
+		if err != nil {
+			out += " ERR"
+		} else {
+			out += " " + avHash(v)
+		}
+		return out
 	case 24, 25:
 		// encode a shared map-bearing node into a writer that fails at its arg-th write, then (25) encode again properly
 		fw := &failingWriter{at: arg}
